@@ -104,9 +104,7 @@ theorem stepAny_sound (I : Interp V) (cfg : Cfg) {rec : Pred V → R V} (hrec : 
     · rw [ret_nil h2]; simp [eval, ← e1 _]
   · rw [ret_nil h2]; simp [eval, ← e1 _]
   · rw [ret_nil h2]; simp [eval, ← e1 _, all_eq_not_any_not]
-  · obtain ⟨o2, h3, h4⟩ := bindR_nil h2
-    have e2 := hrec _ _ h3
-    rw [ret_nil h4]; simp [eval, ← e1 _, e2 _, all_eq_not_any_not]
+  · rw [ret_nil h2]; simp [eval, ← e1 _, all_eq_not_any_not]
   · rw [ret_nil h2]; simp [eval, e1 _]
 
 theorem notPost_sound (I : Interp V) (o : Pred V) : Equiv I (notPost o) (.not o) := by
